@@ -858,15 +858,19 @@ Print Assumptions C01_T01g_curve_bounded.
 (* LAYERS (1+)2+3, "hang", for whole files                              *)
 (* The fuel-bearing loops on the decode path, and where each is closed: *)
 (*   reader: read_until / read_exact / read_bom / read_extra /           *)
-(*     read_line_loop / lines_loop -- never out of fuel, for every stream *)
-(*     and schedule ([C01_read_line_loop_total],                          *)
+(*     read_line_loop / lines_loop -- a value or an Err, never out of     *)
+(*     fuel, for every reader state (C08_total =                          *)
+(*     ReaderFacts.read_all_lines_ok; [C01_read_line_loop_total]; a       *)
+(*     value for every faultless schedule,                                *)
 (*     [C01_faultless_reader_never_fails]); the UTF-8 lossy loop          *)
-(*     (EncodingFacts.decode_utf8_lossy_spec, inside those);              *)
+(*     (EncodingFacts.decode_utf8_lossy_spec, used by those);             *)
 (*   framing: the outer `loop` of decode ([C01_framing_fuel]);            *)
 (*   hit-object line: the two index loops of convert_path_str /           *)
 (*     convert_points (fuel = length + 1; [C01_no_panic_hit_object_line]  *)
 (*     returns Done for every state and line);                            *)
-(*   binary searches of ControlPoints: structural (no outcome);           *)
+(*   binary searches of ControlPoints (bs_loop: fuel = length, returns    *)
+(*     an index in every case; C13); replace_sub_aux (Text.v) and         *)
+(*     ndigits_aux (Num.v) likewise return plain values;                  *)
 (*   curve: the theta loop ([C01_theta_loop_terminates], under            *)
 (*     [atan2_in_range]) and the Bezier subdivision -- the only one left  *)
 (*     ([C01_curve_fails_only_in_bezier], [C01_decode_never_panics]).     *)
